@@ -108,6 +108,13 @@ def make_cfg(seed, i):
         if r() < 0.3:
             up["growing.reset_delta"] = True
     campaign.maybe_failpoint(cfg, rng, p=0.12)
+    if i % 12 == 3 and cfg["prob"]["n"] >= 2 and not cfg.get("reg"):
+        # soft restart that adds points while the initial set is still growing (the point count must stay within restarts.max_npt)
+        cfg = campaign.growing_restart_variant(cfg, np.random.default_rng([int(seed), NUM, int(i), 4]), nan_fault=bool(i % 24 == 3))
+        cfg["user_params"]["logging.save_diagnostic_info"] = True
+        cfg["user_params"]["logging.save_poisedness"] = False
+        if i % 48 == 3:
+            cfg["user_params"].pop("restarts.max_npt", None)      # default: max_npt = npt
     return cfg
 
 
